@@ -44,9 +44,14 @@ CHECKS = {
   ref="5/C11"),
  "C20": dict(
   technique="Lean 4 loop invariant of the accept loop for every arrival/completion/shutdown order (slots <= max_connections, no slot leak, no accept after shutdown, returns only when idle) + the real serve() loop driven through scripted select/server/socket stand-ins, plus real-socket runs with a blocking handler",
-  text="Proof (partial): the main loop of radicale.server.serve is a transition system over (slots in use, running workers, backlog, shutdown, phase); by induction over any event sequence the slots in use never exceed max_connections, a finished worker frees its slot at the next iteration, a waiting client is accepted whenever a slot is free, nothing is accepted once shutdown was seen and the function returns only with no request in flight; the Content-Length gate is a closed formula. Tie: generated environment schedules drive the real serve() with select.select, the server class and sockets replaced by scripted stand-ins; poll sets, slot counts and the return point are compared with the model at every iteration; real-socket runs check the concurrent-entry bound, 413 and shutdown with requests in flight.",
+  text="Proof (partial): the main loop of radicale.server.serve is a transition system over (slots in use, running workers, total backlog over any number of listening sockets, shutdown, phase); by induction over any event sequence the slots in use never exceed max_connections, a finished worker frees its slot at the next iteration, a waiting client is accepted whenever a slot is free, nothing is accepted once shutdown was seen and the function returns only with no request in flight; the Content-Length gate is a closed formula. Tie: generated environment schedules drive the real serve() with select.select, the server class and sockets replaced by scripted stand-ins; poll sets, slot counts and the return point are compared with the model at every iteration; real-socket runs check the concurrent-entry bound, 413 and shutdown with requests in flight.",
   note="Partial: the idle-client time-out and complete responses on the wire are socket/OS behaviour, observed in the real-socket runs, not modelled. Trusted: Lean kernel, standard axioms; the scripted stand-ins; socketserver/wsgiref threading.",
   ref="5/C20"),
+ "C07": dict(
+  technique="Lean 4 invariant over all operation histories of a collection's sync state (every stored history tag is a hash chain ending in the remembered ETag; present hrefs are enumerated) and, from it, the convergence theorem for any token handed out at any earlier point, the initial sync, PROPFIND token = REPORT token, and no refusal before max_sync_token_age unless the token folder is lost + history-level differential correspondence of sync-collection REPORT / PROPFIND on two real calendars under all cache-subfolder layouts",
+  text="Proof: members, history entries (with symbolic hash chains and fresh seeds), token files and the clock of one collection are a Lean state; upload, delete, move (onto free / existing names / itself), whole-collection replacement, delete-and-recreate, loss of the cache folder, clock jumps and syncs with any argument are total step functions. By induction over every history the invariant holds; hence for every token T handed out after any history and presented after any further history the answer is a refusal or a change list whose application to the holder's view yields exactly the current members; a sync never changes members; tokens younger than the maximum age are not refused unless an operation lost the token folder. Tie: random histories with up to five outstanding tokens against the real application (clock jumps by ageing cache files) on the 8 layouts; every REPORT/PROPFIND is compared with the compiled model (refused or not, token identity up to renaming, reported hrefs); a model-independent oracle applies each delta to the holder's view and compares with a fresh listing.",
+  note="Trusted: Lean kernel, standard axioms; SHA-256 injective (ETags, history tags, token names are symbolic), os.urandom seeds fresh, pickle round trip, directory listing order stable while unchanged; the members map is fed from the real application's answers (object-model correctness is C01). Finding F23 (token outdated at birth after expiry of remembered deletions) was found by this check and fixed; 'nothing changed => same token' is claimed for unchanged clock only (expiry of remembered deletions changes the token by design).",
+  ref="5/C07"),
  "C16": dict(
   technique="Lean 4 theorems: every line of the RFC 4791 9.9 tables (VEVENT, VTODO, VJOURNAL) is equivalent to the overlap test on the ranges the visitor emits; the early exit is sound for ordered occurrences; the cached hull encloses all ranges and the storage shortcut agrees with full evaluation + differential correspondence of comp_match / find_time_range / calendar-query with the model and an independent RFC oracle",
   text="Proof: visit_time_ranges is modelled per component type over integer seconds; for all values each table line's emitted ranges overlap a filter range iff the RFC condition (written independently) holds; the visitor's early exit equals 'some occurrence overlaps' for occurrences in non-decreasing order (proved for DAILY/WEEKLY progressions); the hull encloses every range, so skipping by hull and claiming a match by hull are both sound when ranges are well formed - hence an always-true extra condition cannot change a result. Tie: objects and boundary-placed ranges from the property's grammar through comp_match, find_time_range and real calendar-query REPORTs (with the extra condition before/after) vs the model driver and an RFC oracle over independently computed occurrences.",
